@@ -432,6 +432,29 @@ func c03RawBatch() vs.Verdict {
 // The notification must be handled at all, and the call's handler must not start before the
 // notification's handler has finished.  kind: stateful (one session), stateless-legacy and
 // stateless-modern (every POST is served by its own short-lived session).
+// c03Writer reports the moment the response status is committed (what the client sees first).
+type c03Writer struct {
+	*httptest.ResponseRecorder
+	committed chan int
+	once      bool
+}
+
+func (w *c03Writer) commit(code int) {
+	if !w.once {
+		w.once = true
+		w.committed <- code
+	}
+}
+func (w *c03Writer) WriteHeader(code int) {
+	w.ResponseRecorder.WriteHeader(code)
+	w.commit(code)
+}
+func (w *c03Writer) Write(p []byte) (int, error) {
+	w.commit(http.StatusOK)
+	return w.ResponseRecorder.Write(p)
+}
+func (w *c03Writer) Flush() { w.commit(http.StatusOK) }
+
 func c03HTTP(kind string) vs.Verdict {
 	f := &e1Fail{prefix: "c03 http " + kind}
 	ctl := vs.NewController()
@@ -456,7 +479,7 @@ func c03HTTP(kind string) vs.Verdict {
 	}
 	h := NewStreamableHTTPHandler(func(*http.Request) *Server { return s }, &StreamableHTTPOptions{Stateless: stateless, Logger: quietLogger})
 	sid := ""
-	post := func(body string) *httptest.ResponseRecorder {
+	postW := func(body string, w http.ResponseWriter) *httptest.ResponseRecorder {
 		r := httptest.NewRequest("POST", "http://example.test/mcp", strings.NewReader(body))
 		r.Header.Set("Content-Type", "application/json")
 		r.Header.Set("Accept", "application/json, text/event-stream")
@@ -479,10 +502,15 @@ func c03HTTP(kind string) vs.Verdict {
 				r.Header.Set("Mcp-Name", m.Params.Name)
 			}
 		}
-		w := httptest.NewRecorder()
-		h.ServeHTTP(w, r)
-		return w
+		if w != nil {
+			h.ServeHTTP(w, r)
+			return nil
+		}
+		rec := httptest.NewRecorder()
+		h.ServeHTTP(rec, r)
+		return rec
 	}
+	post := func(body string) *httptest.ResponseRecorder { return postW(body, nil) }
 	if !stateless {
 		w := post(`{"jsonrpc":"2.0","id":"i","method":"initialize","params":{"protocolVersion":"` + version + `","capabilities":{},"clientInfo":{"name":"c","version":"1"}}}`)
 		sid = w.Header().Get("Mcp-Session-Id")
@@ -490,10 +518,17 @@ func c03HTTP(kind string) vs.Verdict {
 	}
 	vs.Quiet(false)
 	done := make(chan string, 1)
+	// The client regards the notification's POST as answered the moment the status line is on the
+	// wire (WriteHeader / Flush), which may be before the server's ServeHTTP has returned: the call is
+	// sent from then on.
+	answered := make(chan int, 1)
 	vs.Go(func() {
-		w := post(`{"jsonrpc":"2.0","method":"notifications/progress","params":{"progressToken":1,"progress":1` + meta + `}}`)
-		vs.Event("notification POST answered %d", w.Code)
-		w = post(`{"jsonrpc":"2.0","id":5,"method":"tools/call","params":{"name":"t","arguments":{"k":0}` + meta + `}}`)
+		postW(`{"jsonrpc":"2.0","method":"notifications/progress","params":{"progressToken":1,"progress":1`+meta+`}}`, &c03Writer{ResponseRecorder: httptest.NewRecorder(), committed: answered})
+	})
+	vs.Go(func() {
+		code := <-answered
+		vs.Event("notification POST answered %d", code)
+		w := post(`{"jsonrpc":"2.0","id":5,"method":"tools/call","params":{"name":"t","arguments":{"k":0}` + meta + `}}`)
 		done <- fmt.Sprintf("call POST answered %d", w.Code)
 	})
 	res := <-done
